@@ -30,8 +30,29 @@ var c20Deco = [][2]string{
 	{"null ", ""}, {"\r\n", "\r"}, {"a:\n  b: ", "\n"}, {"\"'", "'\""}, {"\u2028", "\u0085"}, {strings.Repeat("long ", 60), strings.Repeat(" tail", 60)},
 }
 
+// coreLetters are letters neither encoding/json nor yaml.v3 ever writes by themselves (no hex digit of either case,
+// no escape letter, no keyword letter): the class of words `word_survives_only_where_it_was` /
+// `canary_absent_from_default_json_bytes` (Props/C20.lean) speak about.
+const coreLetters = "GHIJKMOQRSTVWXYZ"
+
+func coreNum(n int) string {
+	if n == 0 {
+		return coreLetters[:1]
+	}
+	var b []byte
+	for ; n > 0; n /= len(coreLetters) {
+		b = append([]byte{coreLetters[n%len(coreLetters)]}, b...)
+	}
+	return string(b)
+}
+
 func canary(i int, deco [2]string) (value, coreTok string) {
-	coreTok = fmt.Sprintf("CANARY%dQZ%dK", i, i*7+3)
+	coreTok = "QZ" + coreNum(i) + "ZY" + coreNum(i*7+3) + "ZQ"
+	for _, r := range coreTok {
+		if yamlOwn(r) || jsonOwn(r) {
+			panic("canary core uses a character the encoders write by themselves")
+		}
+	}
 	return deco[0] + coreTok + deco[1], coreTok
 }
 
@@ -886,8 +907,39 @@ func genBytes(ctx *core.Ctx) {
 	}
 }
 
+func genEncRend(ctx *core.Ctx) {
+	type a struct {
+		S string `json:"s"`
+	}
+	for i, d := range c20Deco {
+		v, _ := canary(i+1, d)
+		ctx.Count("encRend-exh-decorations")
+		ctx.Add("c20.encRend", a{S: v})
+	}
+	for _, x := range byteAtoms {
+		for _, y := range byteAtoms {
+			ctx.Count("encRend-exh-pairs")
+			ctx.Add("c20.encRend", a{S: x + y})
+			ctx.Add("c20.encRend", a{S: "QZG" + x + y + "ZQ"})
+		}
+	}
+	words := []string{"QZGZQ", "a", "long", " ", "\n", "x: y", "#", "'", "\"", "\t", "-", "é", "\u2028", "  ", "\n\n", "tail "}
+	for i := 0; i < ctx.Pick(3000, 60000); i++ {
+		var b strings.Builder
+		for j := 0; j < 1+ctx.Rng.Intn(40); j++ {
+			b.WriteString(words[ctx.Rng.Intn(len(words))])
+			if ctx.Rng.Intn(3) == 0 {
+				b.WriteByte(' ')
+			}
+		}
+		ctx.Count("encRend-random")
+		ctx.Add("c20.encRend", a{S: b.String()})
+	}
+}
+
 func runC20(ctx *core.Ctx) {
 	genBytes(ctx)
+	genEncRend(ctx)
 	genResolve(ctx)
 	genSetName(ctx)
 	genProcExt(ctx)
